@@ -451,6 +451,30 @@ def special_plane(draw, o, recipe):
             w1, w2 = draw(st.sampled_from(((1, 1), (1, 2), (2, 1), (3, 1))))
             nn2 = X.add(X.mul(w1, faces[k1][0]), X.mul(w2, faces[k2][0]))
             return ("PL", o[1][e[0]], tuple(F(x) for x in nn2))
+        if recipe in ("cap-V", "tangent-far-V"):
+            # the vertex farthest from the vertex centroid (for bodies without central symmetry it is farther away than
+            # half the diameter): a plane cutting a small cap off it, or touching it
+            c = X.centroid(o[1])
+            d2 = [X.dot(X.sub(q, c), X.sub(q, c)) for q in o[1]]
+            order = sorted(range(len(o[1])), key=lambda t: -d2[t])
+            vi = order[draw(st.sampled_from((0, 0, 0, 1)))]
+            adj = [f for f in faces if vi in f[2]]
+            nn2 = (0, 0, 0)
+            for f in adj:
+                nn2 = X.add(nn2, f[0])
+            assume(not X.is_zero(nn2))
+            nn2 = tuple(F(x) for x in nn2)
+            if vi == order[0] and draw(st.booleans()):
+                # the supporting plane perpendicular to (vertex - centroid): as far from the centroid as a plane
+                # meeting the body can be
+                nn2 = X.sub(o[1][vi], c)
+            if recipe == "tangent-far-V":
+                return ("PL", o[1][vi], nn2)
+            # through a point a quarter / an eighth of the way along an edge at that vertex, same normal: a small cap
+            nb = [q for (a_, b_) in X.edges_of(o) for q in ((b_,) if tuple(a_) == tuple(o[1][vi]) else (a_,) if tuple(b_) == tuple(o[1][vi]) else ())]
+            q = draw(st.sampled_from(nb))
+            t = draw(st.sampled_from((F(1, 4), F(1, 8), F(1, 2))))
+            return ("PL", X.add(o[1][vi], X.mul(t, X.sub(q, o[1][vi]))), nn2)
         if recipe == "tangent-V":
             vi = draw(st.integers(0, len(o[1]) - 1))
             adj = [f for f in faces if vi in f[2]]
